@@ -52,6 +52,46 @@ func vhLongFileTail() {
 		vAssert(len(fsys.writes) == 0, "a rejected certificate did not stop the run before anything was written")
 		return
 	}
+	if scen == 2 {
+		// C04: the validity block (or its `until`) lies behind 70 000 bytes
+		filler := make([]byte, 0, 70100)
+		for len(filler) < 70000 {
+			filler = append(filler, []byte("  # this certificate is renewed by hand, ask the PKI team before editing\n")...)
+		}
+		head := "version: 1\nsubject: CN=late\nserialNumber: 9\n"
+		var body string
+		switch vChoose("validityPlace", 3) {
+		case 0: // the whole block behind a very long line
+			body = head + "subjectUniqueId: \"!binary:" + b64 + "\"\nvalidity:\n  from: 2031-03-04\n  until: 2033-05-06\n"
+		case 1: // the whole block behind a long comment
+			body = head + string(filler) + "validity:\n  from: 2031-03-04\n  until: 2033-05-06\n"
+		case 2: // `until` behind a long comment inside the block
+			body = head + "validity:\n  from: 2031-03-04\n" + string(filler) + "  until: 2033-05-06\n"
+		}
+		vAssert(len(body) > 65536, "harness: the file is not larger than 64 KiB")
+		fsys.put("pki/late.yaml", []byte(body), vNow())
+		d := NewFilesystemDatabase(fsys)
+		vAssert(d.Open() == nil, "Open failed")
+		list, err := db.PlanBulkUpdate(d, vDefaultFlags)
+		g := 0
+		if err == nil {
+			g, err = db.BulkUpdate(d, list)
+		}
+		vAssert(err == nil && g == 1, "a configuration file of more than 64 KiB was not generated")
+		if err != nil || g != 1 {
+			return
+		}
+		vReach("ran")
+		a, err := d.GetBuildArtifact("late")
+		vAssert(err == nil && a != nil && a.Certificate != nil, "no certificate in the database after the run")
+		if err != nil || a == nil || a.Certificate == nil {
+			return
+		}
+		nb, na := a.Certificate.TBSCertificate.Validity.NotBefore, a.Certificate.TBSCertificate.Validity.NotAfter
+		vAssert(nb.Equal(time.Date(2031, 3, 4, 0, 0, 0, 0, time.Local)), "notBefore is not the `from` written behind the first 64 KiB of the configuration file")
+		vAssert(na.Equal(time.Date(2033, 5, 6, 0, 0, 0, 0, time.Local)), "notAfter is not the `until` written behind the first 64 KiB of the configuration file")
+		return
+	}
 	text := "{\n \"version\": 1,\n \"subject\": \"CN=doc\",\n \"serialNumber\": 9,\n \"validity\": {\"from\": \"2024-01-01\", \"until\": \"2031-02-03\"},\n \"extensions\": [\n  {\"admission\": {\"content\": {\n" +
 		"   \"admissionAuthority\": {\"type\": \"dns\", \"name\": \"top.example\"},\n   \"admissions\": [\n    {\"professionInfos\": [\n" +
 		"     {\"professionItems\": [\"first\"],\n      \"addProfessionInfo\": \"!binary:" + b64 + "\",\n      \"registrationNumber\": \"9-8-7-6-5-4-3-2-1\",\n      \"professionOids\": [\"1.2.3.4\"]},\n" +
